@@ -10,6 +10,7 @@ from .engine import Analysis, CLS, PUBLIC_API
 from .loader import norm
 from .locks import is_logging_stmt, stem, suffix, self_attr
 from .report import Rule
+from .rules_common import rules_of
 from .rules_common import (MUT, primary, key_matches, showlock, site_text, site_func, site_loc, site_akey,
                            mutation_events, resource_hits, func_nodes)
 from .terms import AnalysisError, show
@@ -144,6 +145,27 @@ def shared_state_rule(A, rule):
     its attributes (a per-call value parked in `self` is visible to, and overwritten by,
     every concurrent call)"""
     init_like = {f"{CLS}.__init__", f"{CLS}._set_default_algorithms"}
+
+    def class_expr(e, aliases):
+        t = ast.unparse(e)
+        return t in ("type(self)", "self.__class__", CLS, "cls") or (isinstance(e, ast.Name) and e.id in aliases)
+
+    # attributes of the CLASS are shared by every store object of the process: never assigned by a method (constructor included)
+    for f in [fn for fn in A.p.funcs.values() if fn.cls == CLS]:
+        aliases = {a.targets[0].id for a in ast.walk(f.node) if isinstance(a, ast.Assign) and len(a.targets) == 1 and isinstance(a.targets[0], ast.Name)
+                   and ast.unparse(a.value) in ("type(self)", "self.__class__", CLS)}
+        for n in ast.walk(f.node):
+            tg = n.targets if isinstance(n, ast.Assign) else [n.target] if isinstance(n, (ast.AugAssign, ast.AnnAssign)) else []
+            for t in tg:
+                for x in ast.walk(t):
+                    if isinstance(x, ast.Attribute) and isinstance(x.ctx, ast.Store) and class_expr(x.value, aliases):
+                        rule.ob()
+                        rule.inst(f"{f.qual}:{n.lineno} assigns the class attribute {x.attr}")
+                        rule.fail(f, n, f"`{norm(n)[:70]}` writes an attribute of the class: the value is shared by every store object of the process - opening "
+                                  "another store (another algorithm, another namespace) changes it under this one", A.p.loc(f, n))
+            if isinstance(n, ast.Call) and isinstance(n.func, ast.Name) and n.func.id == "setattr" and n.args and class_expr(n.args[0], aliases):
+                rule.ob()
+                rule.fail(f, n, f"`{norm(n)[:70]}` writes an attribute of the class", A.p.loc(f, n))
     # helpers called only while constructing
     for f in [fn for fn in A.p.funcs.values() if fn.cls == CLS]:
         for n in ast.walk(f.node):
@@ -251,7 +273,7 @@ def check_C07(A: Analysis, tier):
     rules.append(rs)
 
     from .rules_paths import c05_cached
-    c5g = [r for r in c05_cached(A) if r.rid == "C05.g"][0]
+    c5g = [r for r in rules_of(A, "C05") if r.rid == "C05.g"][0]
     ri7 = Rule("C07", "C07.i", "an existing cid list is updated in place, never replaced by a rename: the advisory flock that serialises "
                "instances of other processes lives on the file's inode, and a waiter that obtains the lock on a replaced (unlinked) inode works on "
                "a stale list (shared with C05.g)", floor=c5g.floor)
@@ -260,6 +282,13 @@ def check_C07(A: Analysis, tier):
         ri7.fail(f.func, f.construct, f.message, f.loc, f.detail)
     rules.append(ri7)
 
+    _src = [r for r in rules_of(A, "C10") if r.rid == "C10.f"][0]
+    _sh = Rule("C07", "C07.j", 'a cid list is never observable empty (or shortened) while it still has members: an in-place rewrite writes first and truncates afterwards (shared with C10.f) - _find_object reads the list without the cid claim and without the flock', floor=_src.floor)
+    _sh.instances, _sh.nontrivial, _sh.obligations = list(_src.instances), set(_src.nontrivial), _src.obligations
+    for f in _src.findings:
+        if True:
+            _sh.fail(f.func, f.construct, f.message, f.loc, f.detail)
+    rules.append(_sh)
     rh = Rule("C07", "C07.h", "no call removes a directory of the store's permanent trees: a shard directory is shared by every identifier "
               "with the same prefix, and creating it (makedirs) and moving a file into it is atomic with no claim an rmdir could hold", floor=3)
     no_dir_removal_rule(A, rh)
@@ -467,10 +496,39 @@ def check_C12(A: Analysis, tier):
                         rd.fail(it.entry, "metadata_locked_docs", f"document claim {showlock(l)} may be held at exit ({kind} {label})")
     rules.append(rd)
 
+    rh12 = Rule("C12", "C12.h", "every directory creation tolerates a concurrent creator (exist_ok=True, or inside a try that handles FileExistsError): the "
+                "per-document claims of two formats of one pid do not exclude each other around the pid's directory", floor=2)
+    from .rules_data import enclosing, in_body
+    seen12 = set()
+    for e in ("store_metadata", "store_object", "tag_object"):
+        it = A.api(e, "th")
+        for ev in it.events:
+            if ev.kind != "MKDIR" or (ev.func.qual, ev.line) in seen12:
+                continue
+            seen12.add((ev.func.qual, ev.line))
+            rh12.ob()
+            rh12.inst(f"{ev.func.qual}:{ev.line} {ev.prim}")
+            call = ev.node if isinstance(ev.node, ast.Call) else None
+            tolerant = call is not None and any(k.arg == "exist_ok" and isinstance(k.value, ast.Constant) and k.value.value is True for k in call.keywords)
+            if ev.prim.endswith("mkdtemp") or ev.prim.endswith("NamedTemporaryFile"):
+                tolerant = True
+            if not tolerant:
+                for (fn_, nd_) in ev.extra.get("callchain", [(ev.func, ev.node)]):
+                    for t in enclosing(nd_, ast.Try):
+                        if in_body(nd_, t.body) and any((h_.type is None or any(x in ast.unparse(h_.type) for x in ("FileExistsError", "OSError", "Exception")))
+                                                        and not any(isinstance(x, ast.Raise) for b_ in h_.body for x in ast.walk(b_))
+                                                        for h_ in t.handlers):
+                            tolerant = True
+            if not tolerant:
+                rh12.fail(ev.func, ev.node, f"{ev.prim} fails when the directory already exists, and whether it exists was tested separately (or not at all): two "
+                          "concurrent first stores for one pid (different formats / same shard) both see it absent, the loser raises FileExistsError",
+                          A.p.loc(ev.func, ev.node))
+    rules.append(rh12)
+
     # a document claim serialises writers of ONE (pid, format) document; the staging file must therefore be nameable by
     # this call only (a NamedTemporaryFile / mkstemp name), or two formats of one pid publish each other's bytes
     from .rules_paths import check_C09
-    c9 = [r for r in check_C09(A, "quick") if r.rid == "C09.a"][0]
+    c9 = [r for r in rules_of(A, "C09") if r.rid == "C09.a"][0]
     rg12 = Rule("C12", "C12.g", "a metadata document is published only from a temp file with a name unique to the call (shared with C09.a): "
                 "the per-document claim gives no exclusion over a staging name that another format of the same pid also uses", floor=1)
     meta_inst = [x for x in c9.instances if "META" in x]
@@ -715,4 +773,8 @@ def check_C16(A: Analysis, tier):
                     re_.fail(cl, n, "client enables multiprocessing through a different variable/value than the library reads",
                              A.p.loc(cl, n))
     rules.append(re_)
+    rf16 = Rule("C16", "C16.f", "all coordination state lives in the constructor's Manager lists / Conditions: no method keeps counters or flags in a plain "
+                "attribute of the store object (shared with C07.g) - such state is per process, invisible to the other workers", floor=10)
+    shared_state_rule(A, rf16)
+    rules.append(rf16)
     return rules
